@@ -25,8 +25,14 @@ func checkC11(w *World, r *Result) {
 	sub := &Result{}
 	runORD1(w, sub, func(rel string) bool { return rel == "analysis" })
 	nw := 0
+	walkFns := map[string]bool{"analysis.(*Struct).setImplements": true}
+	for _, cf := range calleeClosure(w, w.MustFunc("analysis.fetchEnumsAndUnions"), 2) {
+		if cf.Pkg == w.MustFunc("analysis.fetchEnumsAndUnions").Pkg {
+			walkFns[cf.Name] = true // the walk may live in a helper or a method of a collector
+		}
+	}
 	for _, o := range sub.Obs {
-		if o.Func == "analysis.fetchEnumsAndUnions" || o.Func == "analysis.(*Struct).setImplements" {
+		if walkFns[o.Func] {
 			r.add(o)
 			nw++
 		}
@@ -285,7 +291,8 @@ func checkMemberFilter(w *World, r *Result) {
 			if typ, _, _ := okVarInfo(info, fi.Decl, c.expr); typ == "*go/types.Interface" && c.truth {
 				continue
 			}
-			if s := es(c.expr); !c.truth && (s == "len(members) == 0") {
+			// "the member list is not empty", however it is spelled (`len(m) == 0` left, `len(m) != 0` / `> 0` entered)
+			if isLenNonEmptyCond(info, c) {
 				continue
 			}
 			skipOK = false
@@ -293,6 +300,68 @@ func checkMemberFilter(w *World, r *Result) {
 		return true
 	})
 	r.cond(store && skipOK, "AGR-C11f", fi.Name, "every interface with members is recorded", pos, "out[candidate] = members under no condition other than 'is an interface' and 'has at least one member'", "the union table drops or keeps interfaces under an extra condition")
+}
+
+// isLenNonEmptyCond: the path condition says that some slice has at least one element.
+func isLenNonEmptyCond(info *types.Info, c pcond) bool {
+	e := ast.Unparen(c.expr)
+	truth := c.truth
+	for {
+		u, ok := e.(*ast.UnaryExpr)
+		if !ok || u.Op != token.NOT {
+			break
+		}
+		e, truth = ast.Unparen(u.X), !truth
+	}
+	be, ok := e.(*ast.BinaryExpr)
+	if !ok {
+		return false
+	}
+	x, y, op := be.X, be.Y, be.Op
+	if _, isLen := ast.Unparen(y).(*ast.CallExpr); isLen { // constant on the left: swap
+		x, y = y, x
+		switch op {
+		case token.LSS:
+			op = token.GTR
+		case token.GTR:
+			op = token.LSS
+		case token.LEQ:
+			op = token.GEQ
+		case token.GEQ:
+			op = token.LEQ
+		}
+	}
+	call, ok := ast.Unparen(x).(*ast.CallExpr)
+	if !ok || !isBuiltinCall(info, call, "len") {
+		return false
+	}
+	k0, ok := constInt(info, y)
+	if !ok {
+		return false
+	}
+	k := int64(k0)
+	// evaluate "len >= 1" against the condition for len in {0, 1, 2}
+	holds := func(n int64) bool {
+		var v bool
+		switch op {
+		case token.EQL:
+			v = n == k
+		case token.NEQ:
+			v = n != k
+		case token.LSS:
+			v = n < k
+		case token.LEQ:
+			v = n <= k
+		case token.GTR:
+			v = n > k
+		case token.GEQ:
+			v = n >= k
+		default:
+			return false
+		}
+		return v == truth
+	}
+	return !holds(0) && holds(1) && holds(2) && holds(3)
 }
 
 func checkUnionNode(w *World, r *Result) {
